@@ -212,10 +212,13 @@ def check_against_spec(got, flag, x, z, amp, n, imf_opts, cosf=np.cos, exact=Fal
 
 
 # ----------------------------------------------------------------------------- oracle: get_next_imf_mask on real numerics
-def oracle_gni(x, z, amp, n, imf_opts, procs):
-    """the property on one call; returns (fails, path)"""
+def oracle_gni(x, z, amp, n, imf_opts, procs, dtype=None):
+    """the property on one call; returns (fails, path).  dtype: the implementation receives the signal as integer counts /
+    single precision (x holds the float64 values those elements denote: the specification is about them)"""
     from emd import sift
-    x = np.asarray(x, dtype=float)
+    xv = np.asarray(x, dtype=float)
+    x = xv.astype(dtype) if dtype else xv
+    assert np.array_equal(x.astype(float), xv)
     fails = []
     st, r = _run(lambda: sift.get_next_imf_mask(x, z, amp, nphases=n, nprocesses=procs[0], imf_opts=imf_opts))
     if st == 'timeout':
@@ -233,9 +236,9 @@ def oracle_gni(x, z, amp, n, imf_opts, procs):
     if verdict == 'bad':
         fails.append('masked IMF is not the average over %d equally spaced phases of extraction(signal + mask) - mask '
                      '(z=%r, amp=%r): %s' % (n, z, amp, detail))
-    # zero amplitude
+    # zero amplitude (the masked path always extracts from the float array signal + 0: compared with plain extraction of the float values)
     st, r0 = _run(lambda: sift.get_next_imf_mask(x, z, 0, nphases=n, nprocesses=procs[0], imf_opts=imf_opts))
-    st1, p = _run(lambda: sift.get_next_imf(x, **imf_opts))
+    st1, p = _run(lambda: sift.get_next_imf(xv, **imf_opts))
     if st == 'ok' and st1 == 'ok':
         a, b = np.asarray(r0[0])[:, 0], np.asarray(p[0])[:, 0]
         pow2 = n in (1, 2, 4, 8)
@@ -647,10 +650,14 @@ def run(ctx):
         imf_opts = siftcore.real_opts(ctx.rng)[0]
         n = 1 + i % 8
         z = ctx.rng.choice([ctx.rng.uniform(0.01, 0.49), ctx.rng.uniform(0.01, 0.49), 0.25, 0.125, 0.3, 0.05])
+        dt = [None, None, 'int64', None, 'float32', 'int16'][i % 6]
+        if dt:
+            x = siftcore.as_dtype(x, dt)[1]         # the float64 values of the integer counts / single-precision samples
+            ctx.hist['real-gni-dtype-' + dt] += 1
         amp = ctx.rng.choice([ctx.rng.uniform(0.1, 3.0), 1.0, 0.5, -1.5, 2]) * max(1e-3, float(np.std(x)) or 1.0)
         procs = [ctx.rng.choice(procs_all)]
         procs += [p for p in (ctx.rng.sample(procs_all, 2) if quick else procs_all) if p != procs[0]]
-        fails, path = oracle_gni(x, z, amp, n, imf_opts, procs)
+        fails, path = oracle_gni(x, z, amp, n, imf_opts, procs, dtype=dt)
         if path in ('timeout', 'illcond', 'spec-raised'):
             ctx.discarded += 1
             continue
@@ -658,7 +665,7 @@ def run(ctx):
         ctx.tol_cmp += 1
         for f in fails[:1]:
             ctx.problem('impl-violation', 'get_next_imf_mask', f,
-                        input=dict(kind='real-gni', signal=[float(v) for v in x], z=z, amp=amp, nphases=n, imf_opts=imf_opts, procs=procs),
+                        input=dict(kind='real-gni', signal=[float(v) for v in x], z=z, amp=amp, nphases=n, imf_opts=imf_opts, procs=procs, dtype=dt),
                         tags=dict(mode='real', family=fam))
 
     # ---- (c), (d) and the oracle: mask_sift on real numerics
@@ -725,7 +732,7 @@ def replay(rec):
         o = dict(i['imf_opts'])
         if 'rilling_thresh' in o:
             o['rilling_thresh'] = tuple(o['rilling_thresh'])
-        f, _ = oracle_gni(np.array(i['signal']), i['z'], i['amp'], i['nphases'], o, i['procs'])
+        f, _ = oracle_gni(np.array(i['signal']), i['z'], i['amp'], i['nphases'], o, i['procs'], dtype=i.get('dtype'))
         for x in f:
             print(x)
         return bool(f)
